@@ -111,7 +111,8 @@ type Disk struct {
 	mu     sync.Mutex
 
 	// Hooks.
-	// Yield, when set, is called before and after every ReadAt (scheduler pre-emption point).
+	// Yield, when set, is called before and after every ReadAt, before every Read and after every Seek
+	// (scheduler pre-emption points).
 	Yield func(point string)
 
 	// event log
@@ -410,6 +411,11 @@ func (d *Disk) Sync() error {
 }
 
 func (d *Disk) Read(p []byte) (int, error) {
+	// the device has one shared offset, as an *os.File has: whoever gets to run between a Seek and the Read
+	// that relies on it moves it
+	if d.Yield != nil {
+		d.Yield("read.pre")
+	}
 	n, err := d.ReadAt(p, d.pos)
 	d.pos += int64(n)
 	if n > 0 && err == io.EOF {
@@ -434,6 +440,9 @@ func (d *Disk) Seek(offset int64, whence int) (int64, error) {
 		return 0, errors.New("simdisk: negative position")
 	}
 	d.pos = np
+	if d.Yield != nil {
+		d.Yield("seek.post")
+	}
 	return np, nil
 }
 
